@@ -141,8 +141,8 @@ func runC08(c *fw.Ctx) {
 	base := hx.NewStdEnv()
 	r := c.Rand("shapes")
 	maxD := c.Pick(4, 6)
-	nShapes := c.PerShard(c.Pick(320, 16000))
-	nLong := c.PerShard(c.Pick(32, 640))
+	nShapes := c.PerShard(c.Pick(320, 8000))
+	nLong := c.PerShard(c.Pick(32, 320))
 	for i := 0; i < nShapes; i++ {
 		defs, used, nfn := c08Shape(r, maxD)
 		long := i < nLong
